@@ -1,6 +1,6 @@
 """C13 -- shutdown reaches every job exactly once, at its scheduler's end, in bounded time."""
 
-from . import runrules, shutrules
+from . import runrules, shutrules, common
 
 
 def check(ctx, rep):
@@ -12,7 +12,8 @@ def check(ctx, rep):
         "class co_shutdown resolves (C3 MRO) to the broadcast itself, which is the relay. R13.4 the wait on "
         "the handlers is bounded by shutdown_timeout (None = unbounded) and what is still pending is "
         "cancelled and awaited. R13.5 every return of the broadcast is the boolean `nothing had to be "
-        "cancelled`. R13.6 = R11.2: a cancelled nested run has tidied its jobs before its parent shuts down.")
+        "cancelled`. R13.6 = R11.2: a cancelled nested run has tidied its jobs before its parent shuts down. "
+        "R13.7 the synchronous shutdown() returns the value of driving co_shutdown() once, unprotected.")
     rep.declined = ["handler durations"]
     rep.trusted = ["T1", "T2", "T8"]
     runrules.exit_discipline(ctx, rep, "R13.1", "R13.1", "R13.1")
@@ -20,3 +21,4 @@ def check(ctx, rep):
     shutrules.broadcast_total(ctx, rep, "R13.3")
     shutrules.bounded_then_cancel(ctx, rep, "R13.4", "R13.5")
     shutrules.cancellation_edges(ctx, rep, "R13.6")
+    common.sync_wrapper(ctx, rep, "R13.7", "shutdown")
